@@ -181,6 +181,31 @@ void Client::query(int kind, const Bytes &k0, const Bytes &k1, size_t opi)
 
 bool Client::op(const Op &o, size_t opi)
 {
+	if (o.name == "sweepseek") {
+		// every (position, target) pair of a small table: open, advance to position, seek, read on
+		int kind = (int)(o.argi(0) & 3);
+		size_t maxn = (size_t)o.argi(1, 60);
+		size_t n = keys.size() < maxn ? keys.size() : maxn;
+		std::vector<std::string> targets;
+		for (size_t t = 0; t < n; t++) for (int m : { 0, 2, 4, 1 }) targets.push_back("@k" + std::to_string(t) + ":" + std::to_string(m));
+		targets.push_back("@end"); targets.push_back("x");
+		Bytes lo = keys.empty() ? Bytes() : keys.front();
+		std::string k0 = kind == 0 ? "x" : kind == 2 ? lit(lo.substr(0, lo.size() / 2)) : lit(lo);
+		size_t cases = 0;
+		for (size_t pos = 0; pos <= n + 1 && !res.viol; pos++)
+			for (auto &t : targets) {
+				if (res.viol) break;
+				op(Op{ "open", { "0", std::to_string(kind), k0, "@end" } }, opi);
+				if (pos) op(Op{ "next", { "0", std::to_string(pos) } }, opi);
+				op(Op{ "seek", { "0", t } }, opi);
+				op(Op{ "next", { "0", "2" } }, opi);
+				op(Op{ "close", { "0" } }, opi);
+				cases++;
+			}
+		res.probes["sweep-position-target-pairs"] += cases;
+		res.probes["sweepseek-runs"]++;
+		return true;
+	}
 	if (o.name == "q") {
 		int kind = (int)(o.argi(0) & 3);
 		Bytes k0 = resolve(o.arg(1), nullptr), k1 = resolve(o.arg(2), nullptr);
